@@ -276,3 +276,24 @@ func Props() []string {
 	sort.Strings(out)
 	return out
 }
+
+// CheckDeadlock reports goroutines that are still waiting for an emulated lock / Once
+// after the cool-down (faults stopped, peers cooperative, clock advanced): with nothing
+// else runnable that is a deadlock (or a leaked lock). Returns true if it failed the run.
+func (r *Run) CheckDeadlock() bool {
+	ws := r.Sim.LockWaiters()
+	if len(ws) == 0 {
+		return false
+	}
+	var sites []string
+	seen := map[string]bool{}
+	for _, w := range ws {
+		if !seen[w.Site] {
+			seen[w.Site] = true
+			sites = append(sites, w.Site)
+		}
+	}
+	sort.Strings(sites)
+	r.Fail("deadlock", strings.Join(sites, "+"), "after cool-down %d goroutine(s) still wait for a lock that is never released: %+v", len(ws), ws)
+	return true
+}
